@@ -65,6 +65,7 @@ def gen_repo_world(t, family):
     # two languages: files f<odd>.n belong to a second registered language (another metamodel instance that does not
     # declare the model parameters p1/p2); imports cross the language border in both directions
     w.two_langs = family not in GR and t.chance(1, 4, "two-languages")
+    w.tools = t.chance(1, 3, "tools-support")
     for i in range(n):
         d = "" if i == 0 and not t.chance(1, 4, "main-in-sub") else t.pick(DIRS, "dir")
         if family in SP and i > 0:
@@ -215,6 +216,28 @@ def gen_repo_world(t, family):
                 w.files[p].items.append(s)
                 w.defs.append(s)
                 w.shadows.append((p, g, victim.name))
+    # ---- the same name in two files that are never visible together (no file sees both): what a file imported by
+    # an *earlier* load defines must not leak into the lookups of a later load
+    w.unrelated = []
+    if family not in GR:
+        vis_sets = {k: {k} | set(w.direct_imports(k)) for k in paths}
+        for _ in range(t.draw(3, "n-unrelated-dups")):
+            g = t.pick(paths, "ud-g")
+            h = t.pick(paths, "ud-h")
+            if g == h or any(g in v and h in v for v in vis_sets.values()):
+                continue
+            gd = [d for d in w.defs if d.file == g and d.parent is None and not getattr(d, "shadow", False)]
+            if not gd:
+                continue
+            victim = t.pick(gd, "ud-victim")
+            if any(d.file == h and d.name == victim.name for d in w.defs):
+                continue
+            s_ = Ent("def", victim.name, h, None)
+            s_.shadow = True
+            s_.idx = len(w.files[h].items)
+            w.files[h].items.append(s_)
+            w.defs.append(s_)
+            w.unrelated.append((g, h, victim.name))
     if w.builtin_defs:
         # an imported (or own) file may define a builtin's name: the file wins
         for p in paths:
@@ -298,6 +321,8 @@ class Sys:
         self.opens = []
         self.params_seen = None
         kw = {}
+        if getattr(w, "tools", False):
+            kw["textx_tools_support"] = True
         if global_repo:
             kw["global_repository"] = True
         self.builtin_model = None
@@ -339,6 +364,8 @@ class Sys:
         self.mm2 = None
         if getattr(w, "two_langs", False):
             kw2 = {}
+            if getattr(w, "tools", False):
+                kw2["textx_tools_support"] = True
             if "builtin_models" in kw:
                 kw2["builtin_models"] = kw["builtin_models"]
             self.mm2 = metamodel_from_str(grammar(rrel=rrel), **kw2)
@@ -374,6 +401,11 @@ class Sys:
         if self.mm2 is not None:
             self.mm2.register_obj_processors({"Def": defproc})
             self.mm2.register_model_processor(mproc)
+
+    def other_mm(self):
+        if getattr(self, "_other", None) is None:
+            self._other = metamodel_from_str(grammar())
+        return self._other
 
     def register_lang(self):
         if self.mm2 is not None:
@@ -502,7 +534,9 @@ def run(ctx):
         "files": {os.path.relpath(p, ROOT): fe.text for p, fe in w.files.items()},
         "imports": {os.path.relpath(k[0], ROOT) + "#" + str(k[1]): [os.path.relpath(x, ROOT) for x in v]
                     for k, v in w.targets.items()},
-        "two_languages": getattr(w, "two_langs", False), "gr_patterns": w.gr_patterns, "shadows": [(os.path.relpath(a, ROOT), os.path.relpath(b, ROOT), n)
+        "two_languages": getattr(w, "two_langs", False),
+        "same_name_in_unrelated_files": [(os.path.relpath(a, ROOT), os.path.relpath(b, ROOT), n)
+                                         for a, b, n in getattr(w, "unrelated", [])], "gr_patterns": w.gr_patterns, "shadows": [(os.path.relpath(a, ROOT), os.path.relpath(b, ROOT), n)
                                                   for a, b, n in getattr(w, "shadows", [])],
         "ops": [],
     }
@@ -659,6 +693,18 @@ def op_undeclared(ctx, sysm, w, F, params, cache, famtag, t):
         pass
     except Exception as e:
         ctx.violate("C27", "undeclared-rejected", w.family, f"undeclared parameter raised {type(e).__name__}")
+    # a parameter declared on this metamodel is undeclared for every other metamodel of the process
+    others = [("second-language", sysm.mm2)] if sysm.mm2 is not None else []
+    others.append(("unrelated-metamodel", sysm.other_mm()))
+    for label, om in others:
+        try:
+            om.model_from_str("def q0 use qu : q0", p1="x")
+            ctx.violate("C27", "undeclared-rejected", w.family + "/" + label,
+                        "a parameter declared on another metamodel only was accepted")
+        except TextXError:
+            pass
+        except Exception as e:
+            ctx.violate("C27", "undeclared-rejected", w.family + "/" + label, f"raised {type(e).__name__}: {e}")
     if sysm.opens:
         ctx.violate("C27", "undeclared-no-io", w.family, f"files were read before the parameter check: {sysm.opens}")
     if before is not None and [id(x) for x in before] != [id(x) for x in sysm.all_models()]:
@@ -706,6 +752,15 @@ def op_corrupt_cycle(ctx, prop, sysm, w, F, params, cache, famtag, global_repo, 
         if kind == "dangling":
             target.text_override_saved = target.text_override
             target.text_override = "zz9"
+            # or: a name that exists, but only in a file that is not visible from X (it may well have been
+            # loaded by an earlier operation of this history)
+            vis = visible_table(w, X)
+            foreign = [d for d in w.defs if d.file not in ([X] + w.direct_imports(X))
+                       and (d.qname() if w.qualified else d.name) not in vis]
+            if foreign and t.chance(1, 2, "dangling-foreign-name"):
+                d = t.pick(foreign, "foreign-def")
+                target.text_override = d.qname() if w.qualified else d.name
+                ctx.probe("dangling-name-defined-in-an-invisible-file")
         else:
             target.plan = ("never",)
     elif kind == "ambiguous":
